@@ -44,44 +44,124 @@ def loader_order(report, rule_id: str, why: str):
 
 def proto_names_module_collisions(r, report=None):
     """Proto.names: module-name collisions are detected across ALL messages of the proto: one module->packages map, created outside
-    every loop, filled from every message's recursive field types, consumed after the loops."""
+    every loop, filled from every message's recursive field types, consumed after the loops.  The map may live in Proto.names itself
+    or in a helper it calls with the types (then the call must receive the types of every message at once, outside any loop)."""
     m = _pm()
     fi = m.func("gapic.schema.api.Proto.names")
     r.instance("Proto.names module collisions")
-    parents = {}
-    for n in ast.walk(fi.node):
-        for c in ast.iter_child_nodes(n):
-            parents[c] = n
+    FILLS = ("_M_[_T_.ident.module].add(_T_.ident.package)", "_M_.setdefault(_T_.ident.module, set()).add(_T_.ident.package)")
+    LOOPS = (ast.For, ast.comprehension, ast.ListComp, ast.GeneratorExp, ast.SetComp, ast.DictComp)
 
-    def loops_of(n):
+    def parents_of(root):
+        par = {}
+        for n in ast.walk(root):
+            for c in ast.iter_child_nodes(n):
+                par[c] = n
+        return par
+
+    def loops_of(par, n):
         out = []
-        while n in parents:
-            n = parents[n]
-            if isinstance(n, (ast.For, ast.comprehension, ast.ListComp, ast.GeneratorExp, ast.SetComp, ast.DictComp)):
+        while n in par:
+            n = par[n]
+            if isinstance(n, LOOPS):
                 out.append(n)
         return out
-    adds = []
-    for n in ast.walk(fi.node):
-        if isinstance(n, ast.Call):
-            b = pmatch("_M_[_T_.ident.module].add(_T_.ident.package)", n)
-            if b is not None:
-                adds.append((n, b))
-    r.need(len(adds) == 1, "Proto.names: <map>[t.ident.module].add(t.ident.package)", f"{len(adds)} found")
+
+    def fills(root):
+        out = []
+        for n in ast.walk(root):
+            if isinstance(n, ast.Call):
+                for pat in FILLS:
+                    b = pmatch(pat, n)
+                    if b is not None:
+                        out.append((n, b))
+                        break
+        return out
+
+    def all_messages_iter(e):
+        return ast.unparse(e) in ("self.all_messages.values()", "self.all_messages.values", "list(self.all_messages.values())", "tuple(self.all_messages.values())")
+
+    def all_types_expr(e):
+        """e ranges over the recursive field types of every message of the proto"""
+        if isinstance(e, (ast.GeneratorExp, ast.ListComp, ast.SetComp)) and len(e.generators) == 2 and not any(g.ifs for g in e.generators):
+            g0, g1 = e.generators
+            return (all_messages_iter(g0.iter) and pmatch("_X_.recursive_field_types", g1.iter) is not None
+                    and pmatch("_X_.recursive_field_types", g1.iter)["_X_"] == ast.unparse(g0.target) and ast.unparse(e.elt) == ast.unparse(g1.target))
+        b = pmatch("_ANYC_.from_iterable(_ANYG_)", e)
+        if b is not None and isinstance(e, ast.Call) and e.args and isinstance(e.args[0], (ast.GeneratorExp, ast.ListComp)):
+            g = e.args[0]
+            return (len(g.generators) == 1 and not g.generators[0].ifs and all_messages_iter(g.generators[0].iter)
+                    and pmatch("_X_.recursive_field_types", g.elt) is not None
+                    and pmatch("_X_.recursive_field_types", g.elt)["_X_"] == ast.unparse(g.generators[0].target))
+        if isinstance(e, ast.Call) and isinstance(e.func, ast.Name) and e.func.id in ("list", "tuple", "set", "frozenset", "iter") and len(e.args) == 1:
+            return all_types_expr(e.args[0])
+        return False
+
+    def local_value(root, name):
+        vals = [n.value for n in ast.walk(root) if isinstance(n, (ast.Assign, ast.AnnAssign)) and n.value is not None and
+                ast.unparse(n.targets[0] if isinstance(n, ast.Assign) else n.target) == name]
+        return vals[0] if len(vals) == 1 else None
+
+    WHY = ("the map from imported module name to the packages it comes from must be created once, filled from the recursive field types of "
+           "EVERY message of the proto, and only then searched for names used by more than one package (or reserved names): a per-message map "
+           "misses two messages that import same-named modules from different packages, so both imports bind the same name")
+
+    # where does the map live: Proto.names itself, or a helper (module function / method of Proto) it calls
+    host, call_in_names = fi, None
+    adds = fills(fi.node)
+    if not adds:
+        for n in ast.walk(fi.node):
+            if isinstance(n, ast.Call):
+                q = None
+                if isinstance(n.func, ast.Name):
+                    q = f"{fi.module.name}.{n.func.id}"
+                elif isinstance(n.func, ast.Attribute) and isinstance(n.func.value, ast.Name) and n.func.value.id in ("self", "cls"):
+                    mem = m.member(fi.cls, n.func.attr)
+                    q = f"{mem.owner}.{n.func.attr}" if mem is not None else None
+                if q in m.functions and fills(m.functions[q].node):
+                    host, call_in_names, adds = m.functions[q], n, fills(m.functions[q].node)
+                    break
+    r.need(len(adds) == 1, "Proto.names: <map>[t.ident.module].add(t.ident.package)", f"{len(adds)} found (in Proto.names or a helper it calls)")
     node, b = adds[0]
-    fors = [l for l in loops_of(node) if isinstance(l, ast.For)]
-    ok_fill = (len(fors) == 2 and pmatch("_X_.recursive_field_types", fors[0].iter) is not None and ast.unparse(fors[0].target) == b["_T_"]
-               and ast.unparse(fors[1].iter) == "self.all_messages.values()" and ast.unparse(fors[1].target) == pmatch("_X_.recursive_field_types", fors[0].iter)["_X_"])
-    created = [n for n in ast.walk(fi.node) if isinstance(n, (ast.Assign, ast.AnnAssign)) and
+    par = parents_of(host.node)
+    fors = [l for l in loops_of(par, node) if isinstance(l, ast.For)]
+    r.need(len(fors) == len(loops_of(par, node)) and fors, "Proto.names: the map is filled in for-loops", "filled inside a comprehension")
+    r.need(ast.unparse(fors[0].target) == b["_T_"], "Proto.names: innermost fill loop binds the type", ast.unparse(fors[0].target))
+    src = fors[0].iter
+    if isinstance(src, ast.Name) and local_value(host.node, src.id) is not None:
+        src = local_value(host.node, src.id)
+    ok_fill = False
+    if len(fors) == 2:
+        bb = pmatch("_X_.recursive_field_types", src)
+        ok_fill = bb is not None and all_messages_iter(fors[1].iter) and ast.unparse(fors[1].target) == bb["_X_"] and host is fi
+    elif len(fors) == 1:
+        if host is fi:
+            ok_fill = all_types_expr(src)
+        else:
+            params = [a.arg for a in host.node.args.args if a.arg not in ("self", "cls")]
+            r.need(isinstance(src, ast.Name) and src.id in params, "Proto.names helper: the fill loop iterates a parameter", ast.unparse(src))
+            par_n = parents_of(fi.node)
+            in_loop = loops_of(par_n, call_in_names)
+            idx = params.index(src.id)
+            arg = call_in_names.args[idx] if idx < len(call_in_names.args) else next((k.value for k in call_in_names.keywords if k.arg == src.id), None)
+            r.need(arg is not None, "Proto.names helper call: the types argument", ast.unparse(call_in_names))
+            if isinstance(arg, ast.Name) and local_value(fi.node, arg.id) is not None:
+                arg = local_value(fi.node, arg.id)
+            if in_loop:
+                # called once per iteration: each call sees only that iteration's types, unless every call receives all types
+                ok_fill = all_types_expr(arg)
+            else:
+                ok_fill = all_types_expr(arg)
+                r.need(ok_fill or pmatch("_X_.recursive_field_types", arg) is not None, "Proto.names helper call: argument shape",
+                       f"cannot decide whether `{ast.unparse(arg)[:80]}` ranges over the types of every message")
+    created = [n for n in ast.walk(host.node) if isinstance(n, (ast.Assign, ast.AnnAssign)) and
                ast.unparse(n.targets[0] if isinstance(n, ast.Assign) else n.target) == b["_M_"]]
-    ok_create = len(created) == 1 and not loops_of(created[0])
-    consumers = [n for n in ast.walk(fi.node) if isinstance(n, ast.Call) and ast.unparse(n.func) == f"{b['_M_']}.items"]
-    ok_consume = len(consumers) >= 1 and all(not any(isinstance(l, ast.For) for l in loops_of(c)) for c in consumers) and \
-        all(c.lineno > fors[-1].end_lineno for c in consumers) if fors else False
-    cond = find_match("len(_P_) > 1 or _K_ in RESERVED_NAMES", fi.node)[0] is not None
-    r.check(ok_fill and ok_create and ok_consume and cond, fi.module.path, node.lineno, "Proto.names: module -> packages map",
-            "the map from imported module name to the packages it comes from must be created once, filled from the recursive field types of "
-            "EVERY message of the proto, and only then searched for names used by more than one package (or reserved names): a per-message map "
-            "misses two messages that import same-named modules from different packages, so both imports bind the same name")
+    ok_create = len(created) == 1 and not loops_of(par, created[0])
+    consumers = [n for n in ast.walk(host.node) if isinstance(n, ast.Call) and ast.unparse(n.func) == f"{b['_M_']}.items"]
+    ok_consume = len(consumers) >= 1 and all(not any(isinstance(l, ast.For) for l in loops_of(par, c)) for c in consumers) and \
+        all(c.lineno > fors[-1].end_lineno for c in consumers)
+    cond = find_match("len(_P_) > 1 or _K_ in RESERVED_NAMES", host.node)[0] is not None
+    r.check(ok_fill and ok_create and ok_consume and cond, host.module.path, (call_in_names or node).lineno, "Proto.names: module -> packages map", WHY)
 
 
 def camel_case_drops_trailing_separator(r):
@@ -321,3 +401,26 @@ def stmt_guards(fn_node, env=None):
                 out.append((guards, st))
     walk([s for s in fn_node.body if not (isinstance(s, ast.Expr) and isinstance(s.value, ast.Constant))], [])
     return out
+
+
+def ref_types_inclusions(r, want):
+    """Method._ref_types (the list behind ref_types / flat_ref_types, i.e. the import block of the client modules) appends each
+    expression of `want` under exactly the stated condition, on the path that flat_ref_types takes too (no early return before it)."""
+    from ..pymodel import _nnf
+    from ..pynorm import subst as _subst
+    m = _pm()
+    rt = m.func("gapic.schema.wrappers.Method._ref_types")
+    found = {}
+    env_rt = local_env(rt.node)
+    for guards, st in stmt_guards(rt.node, env_rt):
+        if isinstance(st, ast.Expr) and isinstance(st.value, ast.Call) and isinstance(st.value.func, ast.Attribute) \
+                and st.value.func.attr in ("append", "extend") and st.value.args:
+            a0 = _subst(_subst(st.value.args[0], env_rt), env_rt)
+            items = list(a0.elts) if st.value.func.attr == "extend" and isinstance(a0, (ast.List, ast.Tuple)) else [a0]
+            for it in items:
+                found[ast.unparse(it)] = frozenset(g for g in guards if g[0] != "for")
+    for expr, cond in want.items():
+        r.instance(f"_ref_types includes {expr}")
+        wantc = frozenset(_nnf(ast.parse(cond, mode="eval").body, True, []))
+        r.check(expr in found and found[expr] == wantc, rt.module.path, rt.node.lineno, f"_ref_types: {expr} under {sorted(found.get(expr, ['<absent>']))}",
+                f"_ref_types must include {expr} whenever `{cond}`; otherwise the client modules reference a type they do not import")
